@@ -637,6 +637,13 @@ def run_world(arg: dict) -> dict:
     import pytest
 
     root = repo_root()
+    try:  # the repository's tests run with an unrestricted solver (see common.preload)
+        import z3
+
+        z3.set_param("rlimit", 0)
+        z3.z3._main_ctx = None
+    except Exception:
+        pass
     w = World(arg["seed"], arg["cfg"])
     WORLD = w
     targets = [t if os.path.isabs(t) else os.path.join(root, t) for t in arg["targets"]]
